@@ -126,6 +126,11 @@ class SameCall(Harness):
         st["then"] = {"helper": self.then, "drop_na": None, "ddof": None}
         if self.then == "nth": st["then"]["index"] = SymI64(symx.sym_int_range("index2", -(n + 1), n + 1))
         return {"steps": [st]}
+    def regions(self, inp):
+        # the known history finding (Order harness, DESIGN §7): a kernel returning a list that mixes values and None
+        # (first / last / nth, mode) first compiled after the min / max kernel in the same process returns missing everywhere
+        hit = self.first in ("min", "max") and self.then in ("first", "last", "nth", "mode")
+        return {"numba-none-list-kernel-compiled-after-minmax": T(hit)}
     def spec(self, inp, out):
         if isinstance(out, Raised): return [(f"does not raise ({out.type}: {out.msg[:80]})", T(False))]
         return same_frames(out["on"][0], out["off"][0], f"{self.first} then {self.then}")
@@ -192,8 +197,9 @@ def harnesses(tier):
             hs.append(SameCall(a, b, "f", 2))
     else:
         for a in allh:
-            if "f" in KINDS[a]: hs.append(SameCall(a, "first", "f", 3))
-        for a, b, k in (("count_unique", "last", "i"), ("mode", "nth", "i"), ("quantile", "last", "f"), ("median", "nth", "D"), ("count_unique", "first", "D"), ("min", "last", "b")):
+            # min / max before first is the known history finding (a compile-order effect the model cannot predict): left to Order
+            if "f" in KINDS[a] and a not in ("min", "max"): hs.append(SameCall(a, "first", "f", 3))
+        for a, b, k in (("count_unique", "last", "i"), ("mode", "nth", "i"), ("quantile", "last", "f"), ("count_unique", "nth", "D"), ("mode", "first", "D"), ("any", "last", "b"), ("first", "min", "f"), ("last", "max", "i")):
             hs.append(SameCall(a, b, k, 3))
     hs.append(Order(2))
     if not q: hs.append(Order(3))
